@@ -23,7 +23,8 @@ from checks.c12_derivatives import (
 
 PROPERTY = "C17"
 RULE = (
-    "complete product of D x shape x spacing form x derivative mode (and spline stride) x batch size x dtype x call form "
+    "product of D x shape x spacing form x derivative mode (and spline stride) x batch size x dtype x call form (complete on the shapes listed in "
+    "bounds; reduced dtype / N menu for the 3-D quick tier and two extreme elements on the remaining shapes, see bounds) "
     "(functional / module) over the menus: constant, affine-basis (E_a, E_a+E_b, E_a-E_b, generic), quadratic-basis and smooth fields; "
     "edges u->u+affine, u->c u (c in -1,2,-1/2,3), spacing->k spacing (k in 2,1/2), reduction none/mean/sum, 3-D linear tensors; "
     "all pairs of elastic constants on 4 materials; inverse consistency on exact inverse pairs and on (translation, identity) pairs for "
@@ -43,10 +44,11 @@ ASSUMPTIONS = [
     "inverse consistency of exp(v), exp(-v) is interpolation limited and judged as relations: error(A) <= error against the identity / 4 and error(A/2) <= 0.75 error(A) (observed ratios 0.25 .. 0.39: second order)",
     "reduction='none' on 3-D (linear) tensors raises a documented NotImplementedError: not judged",
 ]
-MIN_NONTRIVIAL = {"quick": 3000, "thorough": 12000}
-MIN_OUTCOMES = {"quick": 3000, "thorough": 12000}
-MIN_SUB_TRACES = {"null1": 200, "analytic": 500, "null2": 100, "affine-add": 50, "analytic2": 100, "scale": 200, "linear": 50,
-                  "reduce": 100, "lame": 50, "bspline": 50, "ic-zero": 20, "ic-units": 100, "ic-exp": 4}
+# vacuity guard: about half of what the quick tier measures (97 531 non-trivial cases, 59 047 outcomes); thorough is a superset
+MIN_NONTRIVIAL = {"quick": 48000, "thorough": 70000}
+MIN_OUTCOMES = {"quick": 29000, "thorough": 40000}
+MIN_SUB_TRACES = {"null1": 7500, "analytic": 18000, "null2": 3800, "affine-add": 500, "analytic2": 4400, "scale": 3700, "linear": 960,
+                  "reduce": 5900, "lame": 70, "bspline": 570, "ic-zero": 160, "ic-units": 3400, "ic-exp": 6}
 
 LOSS_CLASS = {
     "grad_loss": "GradLoss", "bending_loss": "Bending", "curvature_loss": "Curvature", "diffusion_loss": "Diffusion",
@@ -850,7 +852,9 @@ def exec_case(case) -> Judge:
     J = Judge(case)
     st, res = guarded(DISPATCH[case["sub"]], J, case)
     if st == "raises":
-        raise res  # harness defect: must surface as exit 2, never as a verdict
+        # every deepali call above is guarded, so this is the judge failing on a returned object it cannot read
+        # (wrong type / rank / dtype): reported as a malformed result, never as a crashed shard
+        J.bad("malformed-result/" + type(res).__name__, "judge could not read the returned object: " + exc_text(res))
     return J
 
 
@@ -918,7 +922,10 @@ def cases_of(shard):
             combos, combos6 = [("ND", 2, "f64"), ("none", 1, "f32")], [("ND", "f64"), ("none", "f32")]
         elif tier == "quick" and D == 3:
             # quick, 3-D: complete spacing form x N product in float64, float32 on the two extreme elements
-            combos = list(itertools.product(sps, (1, 2), ["f64"])) + [("vec", 2, "f32"), ("none", 1, "f32")]
+            if mode in ("prewitt", "sobel", "bspline"):  # the three expensive modes: every spacing form with N=2
+                combos = [(sp, 2, "f64") for sp in sps] + [("vec", 1, "f64"), ("none", 1, "f32")]
+            else:
+                combos = list(itertools.product(sps, (1, 2), ["f64"])) + [("vec", 2, "f32"), ("none", 1, "f32")]
             combos6 = list(itertools.product(sps, ["f64"])) + [("vec", "f32")]
         else:
             combos, combos6 = list(itertools.product(sps, (1, 2), dts)), list(itertools.product(sps, dts))
